@@ -7,6 +7,7 @@ from dalimc.core.runner import new_result, add_violation, observe, sample
 from dalimc.spec.responses import RESPONSES, mangle
 
 ID = "C06"
+OPTIMISED_STRIDE = {"quick": 8, "thorough": 8}      # every k-th shard once more in an interpreter started with -O
 LEVEL = "exploration"
 TECHNIQUE = "exhaustive finite-domain enumeration of the real response classes against a reference kind table"
 RULE = ("every response class reachable from Command._commands x 513 bus outcomes "
